@@ -286,6 +286,11 @@ func (s *Solver) body(t *Term) string {
 		return fmt.Sprintf("((_ fp.to_sbv %d) RTZ %s)", t.P1, a[0])
 	case OFToU:
 		return fmt.Sprintf("((_ fp.to_ubv %d) RTZ %s)", t.P1, a[0])
+	case OSMulNoOvf:
+		if s.Kind == "cvc5" {
+			return fmt.Sprintf("(not (bvsmulo %s %s))", a[0], a[1])
+		}
+		return fmt.Sprintf("(and (bvsmul_noovfl %s %s) (bvsmul_noudfl %s %s))", a[0], a[1], a[0], a[1])
 	}
 	name, ok := opNames[t.Op]
 	if !ok {
